@@ -61,8 +61,11 @@ def run(ctx):
     helper = [f for f in F.fns.values() if f.name.endswith("get_number_and_index_key")]
     R.floor("index_key_helper", len(helper), 1)
     users = 0
+    from facts import is_private_helper
     for f in F.body_fns():
-        for c in f.calls():
+        if is_private_helper(f):
+            continue          # counted once per caller, through the inlined view
+        for c in F.inlined(f).calls():
             if helper and c.target_id == helper[0].id:
                 users += 1
     R.floor("index_key_uses", users, 9)
@@ -126,7 +129,8 @@ def run(ctx):
              "DOM-order|finalise|db<reset<notify", "finalise_block must store the block, then reset the unfinished-block info, then notify",
              sample={"rule": "DOM-order", "fn": "finalise_block", "order": "db.write_fn < last_block_info reset < notify"})
     # 3. counters together
-    upd = [g for g in F.fns.values() if g.kind == "closure" and g.name.startswith("engine::engine::BRC20ProgEngine::add_tx_to_block")
+    atb = ER.engine_methods(F).get("add_tx_to_block")
+    upd = [g for g in (F.descendants(atb.id) if atb is not None else []) if g.kind == "closure"
            and any(s["k"] == "assign" and s["lhs"].get("p") and s["lhs"]["p"][-1] == ".waiting_tx_count" for b in g.blocks for s in b["stmts"])]
     # the increment closure (not the first-tx reset which assigns the whole struct)
     R.floor("counter_update_closure", len(upd), 1)
